@@ -136,4 +136,24 @@ PROPS = {
         "trusted": GCS_TRUST,
         "assumptions": [],
     },
+    "C19": {
+        "lean": "Emu.Props.C19",
+        "diffs": [
+            {"cmd": "lock", "scenario": "c19x", "quick": 0, "thorough": 0, "exhaustive": True, "no_corpus": True},
+            {"cmd": "lock", "scenario": "c19", "quick": 300, "thorough": 6000, "no_corpus": True},
+        ],
+        "facts": ["lock.state_access_outside_map_mu"],
+        "trusted": ["Go memory model: a sync.Mutex section is atomic, a send on a full one-slot channel blocks, a receive frees the slot, select takes a ready case (the runs exercise the real runtime; fairness of the scheduler is not modelled)"],
+        "assumptions": ["the select's choice between two ready cases (context already ended AND slot free) cannot be forced from outside: the machine allows both outcomes, the runs take the one the implementation takes"],
+    },
+    "C06": {
+        "lean": "Emu.Props.C06",
+        "diffs": [
+            {"cmd": "btconc", "scenario": "c06s", "quick": 24, "thorough": 600, "no_corpus": True, "args": {"quick": ["--maxruns", "250"], "thorough": ["--maxruns", "3000"]}},
+            {"cmd": "bt", "scenario": "c06", "quick": 100, "thorough": 2500},
+        ],
+        "facts": ["bt.tables_access_outside_server_mu"],
+        "trusted": BT_TRUST + ["sync.RWMutex gives mutual exclusion between a writer and everyone else (the interleaving runs exercise the real mutex; its fairness is not modelled)"],
+        "assumptions": ["concurrent requests are parked only at the repository's yield points (before the table lock, inside it after each row fetch); code between two yield points runs as one step"],
+    },
 }
